@@ -827,7 +827,11 @@ def corr_runs(ctx, drv, pend):
             mu, gamma = float(g.choice([0.5, 1.0, 2.0, 4.0])), float(g.choice([0.25, 0.5]))
             opt = L.PGDBO(var_start=x0.copy(), mu=mu, gamma=gamma, eps=eps, mode_stopping_criterion_gradient_descent=mode,
                           num_history_stopping_criterion_gradient_descent=nh, max_iteration_optimization=max_it)
-            res, _ = L.quiet(L.PGDB(proj).optimize, loss, None, opt, on_iteration_history=True)
+            try:
+                res, _ = L.quiet(L.PGDB(proj).optimize, loss, None, opt, on_iteration_history=True)
+            except Exception as e:  # noqa
+                ctx.disagree("pgdbrun", (n, ref.tolist(), x0.tolist(), mu, gamma, eps, mode, nh, max_it), f"{type(e).__name__}: {e}", "a run")
+                continue
             i = drv.ask("pgdbrun", n, qlist(ref), qlist(x0), q(lo), q(hi), q(mu), q(gamma), q(eps), mode, nh, max_it)
             pend.append(("pgdbrun", (n, ref.tolist(), x0.tolist(), mu, gamma, eps, mode, nh, max_it),
                          dict(k=res.k, x=np.array(res.value), errs=[float(e) for e in res.error_values], hist=[np.array(v) for v in res.x],
@@ -836,7 +840,11 @@ def corr_runs(ctx, drv, pend):
             delta = float(g.choice([0.125, 0.25, 0.5]))
             opt = L.FISTAO(var_start=x0.copy(), delta=delta, eps=eps, mode_stopping_criterion_gradient_descent=mode,
                            num_history_stopping_criterion_gradient_descent=nh, max_iteration_optimization=max_it)
-            res, _ = L.quiet(L.FISTA(proj).optimize, loss, None, opt, on_iteration_history=True)
+            try:
+                res, _ = L.quiet(L.FISTA(proj).optimize, loss, None, opt, on_iteration_history=True)
+            except Exception as e:  # noqa
+                ctx.disagree("fistarun", (n, ref.tolist(), x0.tolist(), delta, eps, mode, nh, max_it), f"{type(e).__name__}: {e}", "a run")
+                continue
             i = drv.ask("fistarun", n, qlist(ref), qlist(x0), q(lo), q(hi), q(delta), q(eps), mode, nh, max_it)
             pend.append(("fistarun", (n, ref.tolist(), x0.tolist(), delta, eps, mode, nh, max_it),
                          dict(k=res.k, x=np.array(res.value), errs=[float(e) for e in res.error_values], eps=eps, nh=nh, max_it=max_it), i))
